@@ -107,7 +107,7 @@ type Explorer struct {
 	pending     int
 	minDepth    int
 	DeepFirst   bool // take the deepest pending alternative first (classic DFS order)
-	Skipped     int // alternatives not taken because of the preemption bound
+	Skipped     int  // alternatives not taken because of the preemption bound
 	// CollectProj: record Project() of every state reached (cross-check)
 	CollectProj bool
 	Proj        map[string]bool
